@@ -258,6 +258,7 @@ Fixpoint key_eqv (a b : key T) {struct a} : bool :=
   | KTag s, KTag t => Z.eqb s t
   | KNum x, KNum y => x =? y
   | KPInf, KPInf => true | KNInf, KNInf => true | KNone, KNone => true
+  | KUnhashable, KUnhashable => true
   | KZ x, KZ y => Z.eqb x y
   | KStr x, KStr y => Z.eqb x y
   | KFun x, KFun y => Z.eqb x y
